@@ -1,5 +1,6 @@
 import VelaVerif.Lemmas.EmitProg
 import VelaVerif.Spec.OpCheck
+import VelaVerif.Lemmas.EmitExample
 /-!
 # C06 — the register command stream encodes exactly the operations it was given
 
@@ -113,6 +114,16 @@ theorem generate_refines (arch : Arch) (ops : List Op) (ws : List Nat) (h : gene
       rw [machines_single_bank, h1]
       exact h4
 
+/-- Non-vacuity, end to end (kernel-evaluated): for the concrete three-operation list of `Lemmas/EmitExample.lean`
+    the model generator succeeds and returns exactly the words the real generator returned, some register writes
+    are elided, and the specification decoder + comparator (`OpCheck.judge`) accepts the stream: every field equal,
+    every field fits, aligned, one final stop. -/
+theorem example_stream_encodes :
+    EmitExample.genIs (generate EmitExample.exArch EmitExample.exOps) EmitExample.exWords = true ∧
+    EmitExample.elidedCount ≥ 20 ∧
+    EmitExample.okVerdict (OpCheck.judge EmitExample.exRow EmitExample.exArch true EmitExample.exOps EmitExample.exWords) = true := by
+  decide +kernel
+
 /-! ## 3. fields fit their registers exactly on the stated ranges -/
 
 /-- 16-bit parameter, unsigned reading: exact iff the value is in [0, 2^16). -/
@@ -223,6 +234,60 @@ theorem activation_min_witness :
     genActivation (some ⟨0, some 40000, none, 0⟩) (fmOf 32 true false) =
       .ok [.w0 .activation 0, .w0 .activationMin 40000, .w0 .activationMax 32767] ∧
     s16 (mask16 40000) = -25536 := ⟨rfl, by decide⟩
+
+/-! ## 3b. a whole operation: DMA -/
+
+/-- **Operation-level round trip for DMA.**  For every architecture and every DMA operation the generator
+    accepts whose fields fit (regions 16 bit, addresses and length 48 bit), and for *any* prior register file:
+    after the decoder has applied the register program of the operation (`go_writes`: that is what
+    `Decode.events` does with the un-elided commands; `elision_refines` transfers it to the elided stream), the
+    decoded DMA operation is exactly the one that was given. -/
+theorem op_roundtrip_dma (arch : NpuOp.Arch) (d : NpuOp.DmaOp) (ws : List RegWrite) (h : dmaProgram arch d = .ok ws)
+    (regs : RegFile) (hs : Sized regs) (param : Nat)
+    (hsr : 0 ≤ d.src.region ∧ d.src.region < 65536) (hdr : 0 ≤ d.dst.region ∧ d.dst.region < 65536)
+    (hsa : 0 ≤ d.src.address ∧ d.src.address < 2 ^ 48) (hda : 0 ≤ d.dst.address ∧ d.dst.address < 2 ^ 48)
+    (hl : 0 ≤ d.src.length ∧ d.src.length < 2 ^ 48) :
+    Decode.decodeDma param (applyWrites regs ws) =
+      .ok ⟨⟨d.src.region.toNat, d.src.address.toNat, d.src.length.toNat⟩,
+           ⟨d.dst.region.toNat, d.dst.address.toNat, d.src.length.toNat⟩, param⟩ := by
+  unfold dmaProgram at h
+  cases hc : checkDmaOp arch d with
+  | error e => simp [hc, bind, Except.bind] at h
+  | ok u =>
+    simp only [hc, bind, Except.bind, Except.ok.injEq] at h
+    subst h
+    obtain ⟨c1, c2, c3, c4, c5⟩ := dma_codes
+    simp only [applyWrites, RegWrite.addr, c1, c2, c3, c4, c5]
+    have m1 : mask16 d.src.region = d.src.region.toNat := by unfold mask16; omega
+    have m2 : mask16 d.dst.region = d.dst.region.toNat := by unfold mask16; omega
+    rw [addr_fits _ hsa.1 hsa.2, addr_fits _ hda.1 hda.2, addr_fits _ hl.1 hl.2, m1, m2]
+    have k1 : (Isa.DMA0_SRC_REGION) < 1024 := by decide
+    have k2 : (Isa.DMA0_DST_REGION) < 1024 := by decide
+    have k3 : (Isa.DMA0_SRC) < 1024 := by decide
+    have k4 : (Isa.DMA0_DST) < 1024 := by decide
+    have k5 : (Isa.DMA0_LEN) < 1024 := by decide
+    have s1 := sized_regSet regs ⟨false, Isa.DMA0_SRC_REGION⟩ d.src.region.toNat hs
+    have s2 := sized_regSet _ ⟨true, Isa.DMA0_SRC⟩ d.src.address.toNat s1
+    have s3 := sized_regSet _ ⟨false, Isa.DMA0_DST_REGION⟩ d.dst.region.toNat s2
+    have s4 := sized_regSet _ ⟨true, Isa.DMA0_DST⟩ d.dst.address.toNat s3
+    have ne12 : Isa.DMA0_SRC_REGION ≠ Isa.DMA0_DST_REGION := by decide
+    have ne34 : Isa.DMA0_SRC ≠ Isa.DMA0_DST := by decide
+    have ne35 : Isa.DMA0_SRC ≠ Isa.DMA0_LEN := by decide
+    have ne45 : Isa.DMA0_DST ≠ Isa.DMA0_LEN := by decide
+    unfold Decode.decodeDma
+    rw [get1_of_regVal _ _ d.src.length.toNat _ (by rw [regVal_regSet' _ _ _ _ s4 k5]; simp)]
+    rw [get0_of_regVal _ _ d.src.region.toNat _ (by
+      rw [regVal_regSet' _ _ _ _ s4 k5, regVal_regSet' _ _ _ _ s3 k4, regVal_regSet' _ _ _ _ s2 k2,
+        regVal_regSet' _ _ _ _ s1 k3, regVal_regSet' _ _ _ _ hs k1]; simp [Ne.symm ne12])]
+    rw [get1_of_regVal _ _ d.src.address.toNat _ (by
+      rw [regVal_regSet' _ _ _ _ s4 k5, regVal_regSet' _ _ _ _ s3 k4, regVal_regSet' _ _ _ _ s2 k2,
+        regVal_regSet' _ _ _ _ s1 k3]; simp [Ne.symm ne34, Ne.symm ne35])]
+    rw [get0_of_regVal _ _ d.dst.region.toNat _ (by
+      rw [regVal_regSet' _ _ _ _ s4 k5, regVal_regSet' _ _ _ _ s3 k4, regVal_regSet' _ _ _ _ s2 k2]; simp)]
+    rw [get1_of_regVal _ _ d.dst.address.toNat _ (by
+      rw [regVal_regSet' _ _ _ _ s4 k5, regVal_regSet' _ _ _ _ s3 k4]; simp [Ne.symm ne45])]
+    rfl
+
 
 /-! ## 4. alignment: what passes the generator's checks is aligned -/
 
